@@ -123,7 +123,21 @@ func (g *c14Gen) grouping() (jast.Node, interface{}) {
 		}[r.Intn(4)]
 		return &jast.Group{X: &jast.Name{V: r.Pick("nothing", "missing")}, Pairs: [][2]jast.Node{{k, g.valExpr()}}}, O{"arr": items}
 	}
-	switch r.Intn(5) {
+	switch r.Intn(6) {
+	case 5:
+		// the grouped items are the units of an array-constructor step: one unit
+		// is one item (not the list of items), however many there are
+		g.tags["grouping-of-constructor-units"] = true
+		its := items
+		if r.Bool() && len(its) > 0 {
+			its = its[:1]
+		}
+		at := func(i float64) jast.Node {
+			return &jast.Pred{X: &jast.Var{Name: ""}, Filters: []jast.Node{&jast.Num{V: i}}}
+		}
+		unit := &jast.Array{Items: []jast.Node{&jast.Name{V: "g"}, &jast.Name{V: "id"}, &jast.Str{V: "u"}}}
+		return &jast.Group{X: &jast.Path{Steps: []jast.Node{&jast.Name{V: "arr"}, unit}},
+			Pairs: [][2]jast.Node{{&jast.Bin{Op: "&", L: at(0), R: &jast.Str{V: ""}}, &jast.Array{Items: []jast.Node{at(1), &jast.Call{Fn: &jast.Var{Name: "count"}, Args: []jast.Node{&jast.Var{Name: ""}}}}}}}}, O{"arr": its}
 	case 4:
 		// the grouped sequence is the context array itself or a variable, and a
 		// step or the keep-array marker follows: one grouping, not one per member
